@@ -1936,6 +1936,29 @@ mod crypto {
 #[cfg(feature = "ring")]
 pub use crypto::{load_encrypted_file, save_encrypted_file, CryptoReader, CryptoWriter};
 
+/// The bzip2 encoder retries a write that accepted nothing, forever. A writer which
+/// can accept no more data (for example a full `&mut [u8]`) returns Ok(0).
+/// Report that as an error, like `write_all` does.
+#[cfg(feature = "bzip2")]
+struct NoZeroWrites<'a, W: Write> {
+    writer: &'a mut W,
+}
+#[cfg(feature = "bzip2")]
+impl<W: Write> Write for NoZeroWrites<'_, W> {
+    fn write(&mut self, buf: &[u8]) -> std::io::Result<usize> {
+        match self.writer.write(buf) {
+            Ok(0) if !buf.is_empty() => Err(std::io::Error::new(
+                ErrorKind::WriteZero,
+                "failed to write whole buffer",
+            )),
+            other => other,
+        }
+    }
+    fn flush(&mut self) -> std::io::Result<()> {
+        self.writer.flush()
+    }
+}
+
 impl<'a, W: Write + 'a> Serializer<'a, W> {
     /// Writes a binary bool to the output
     #[inline(always)]
@@ -2166,9 +2189,10 @@ impl<'a, W: Write + 'a> Serializer<'a, W> {
 
                 #[cfg(feature = "bzip2")]
                 {
-                    let mut compressed_writer = bzip2::write::BzEncoder::new(writer, Compression::best());
+                    let mut compressed_writer =
+                        bzip2::write::BzEncoder::new(NoZeroWrites { writer }, Compression::best());
                     if let Some(schema) = with_schema {
-                        let mut schema_serializer = Serializer::<bzip2::write::BzEncoder<W>>::new_raw(
+                        let mut schema_serializer = Serializer::<bzip2::write::BzEncoder<NoZeroWrites<W>>>::new_raw(
                             &mut compressed_writer,
                             lib_version_override.unwrap_or(CURRENT_SAVEFILE_LIB_VERSION) as u32,
                         );
@@ -2181,6 +2205,9 @@ impl<'a, W: Write + 'a> Serializer<'a, W> {
                     }; //Savefile always serializes most recent version. Only savefile-abi ever writes old formats.
                     data.serialize(&mut serializer)?;
                     compressed_writer.flush()?;
+                    // Write the end of the compressed stream here. If left to the Drop of
+                    // BzEncoder, a failure to write it would go unnoticed.
+                    compressed_writer.try_finish()?;
                     return Ok(());
                 }
                 #[cfg(not(feature = "bzip2"))]
